@@ -406,6 +406,7 @@ class ScriptBackend(TrialBackend):
         self.resume_missing = []
         self.metric_names = params.get("metric_names", [METRIC])
         self.deleted = []
+        self.delete_log = []
         self.dlg = None
 
     def occupancy(self):
@@ -434,6 +435,9 @@ class ScriptBackend(TrialBackend):
 
     def delete_checkpoint(self, trial_id):
         self.deleted.append(trial_id)
+        # the backend's truth at the moment of the deletion: (dialogue position, trial, status, had a checkpoint)
+        self.delete_log.append((len(self.dlg.entries) - 1 if self.dlg is not None else -1, trial_id,
+                                self.truth.get(trial_id, {}).get("status"), trial_id in self.ckpt))
         self.ckpt.discard(trial_id)
 
     def _new_run(self, trial_id, config, first):
@@ -555,8 +559,27 @@ class ScriptBackend(TrialBackend):
 
     def _all_trial_results(self, trial_ids):
         out = []
+        if not self.p.get("shuffle_poll"):
+            for tid in trial_ids:
+                self._advance(tid)
+                t = self.truth[tid]
+                out.append(TrialResult(trial_id=tid, config=t["config"], creation_time=EPOCH0,
+                                       metrics=list(t["metrics"]), status=t["status"]))
+            return out
+        # param `shuffle_poll` (C20 early-removal cases): the new results of the polled trials arrive in a random interleaving
+        # (the loop sorts the results of a poll by worker time-stamp; the order of the reports of one trial is kept)
+        before = {tid: len(self.truth[tid]["metrics"]) for tid in trial_ids}
         for tid in trial_ids:
             self._advance(tid)
+        if before:
+            new = {tid: self.truth[tid]["metrics"][n:] for tid, n in before.items() if len(self.truth[tid]["metrics"]) > n}
+            stamps = sorted(r[ST_WORKER_TIMESTAMP] for rs in new.values() for r in rs)
+            pos = {tid: 0 for tid in new}
+            for s in stamps:
+                tid = self.rng.choice(sorted(tid for tid in new if pos[tid] < len(new[tid])))
+                new[tid][pos[tid]][ST_WORKER_TIMESTAMP] = s
+                pos[tid] += 1
+        for tid in trial_ids:
             t = self.truth[tid]
             out.append(TrialResult(trial_id=tid, config=t["config"], creation_time=EPOCH0,
                                    metrics=list(t["metrics"]), status=t["status"]))
@@ -964,6 +987,8 @@ def make_scheduler(sp, seed, max_t, sim):
         if sp["type"] in ("rush_stopping", "rush_promotion"):
             kw["rung_system_kwargs"] = {"num_threshold_candidates": 1}
             kw["points_to_evaluate"] = [{k: (v.lower if hasattr(v, "lower") else v) for k, v in cs.items() if hasattr(v, "sample")}]
+        if sp.get("early"):  # speculative early checkpoint removal (C20, case kind "early"): kwargs of the removal callback
+            kw["early_checkpoint_removal_kwargs"] = dict(sp["early"])
         return HyperbandScheduler(cs, **kw), mra
     if kind == "sync":
         from syne_tune.optimizer.schedulers.synchronous import SynchronousGeometricHyperbandScheduler
